@@ -1,7 +1,7 @@
 SPECIFICATION Spec
 CONSTANTS
     Callers = {"other", "a"}
-    Creds = {"opaque", "jws3", "not_json"}
+    Creds = {"opaque", "jws3"}
     Outcomes = {"hit60", "miss"}
     AuthFn = {TRUE}
     RateCfg = 1
